@@ -1,18 +1,21 @@
-//@unit props=C16,C13 tier=quick rlimit=30
-//@file src/repr/adjacency_matrix/mod.rs
+//@unit props=C02,C01,C13 tier=quick rlimit=30
+//@file src/repr/adjacency_list/mod.rs
+#![feature(allocator_api)]
 use vstd::prelude::*;
 use vstd::slice::SliceIndexSpec;
 use vstd::std_specs::iter::IteratorSpec;
 use std::collections::BTreeSet;
 use std::collections::btree_set;
+use core::marker::PhantomData;
 verus! {
 global size_of usize == 8;
 //@include prelude/std_contracts.rs
 //@include prelude/list_core_std.rs
-//@include prelude/dg.rs
+//@include prelude/list_ops_std.rs
+//@include prelude/c13left_std.rs
 
-//@import units/inc/matrix_core.inc.rs
+//@import units/inc/list_core.inc.rs
 
-//@include units/inc/conversions.inc.rs
+//@include units/inc/list_iters.inc.rs
 } // verus!
 fn main() {}
